@@ -169,6 +169,8 @@ def main():
                 fam = 'edit-%s-%s' % (which, name)
                 cases.append(case_evaluate(tr['text'], tr['gold'], tr['units'], fam))
                 if which != 'units':
+                    # without units only evaluate's own comparison can refuse the pair
+                    cases.append(case_evaluate(tr['text'], tr['gold'], None, fam))
                     cases.append(case_summary(tr['text'], tr['gold'], fam))
                 if which != 'gold':
                     cases.append(case_labels(tr['text'], tr['units'], fam))
